@@ -7,6 +7,7 @@ WT=$1; PATCH=$2; DEMO=$3; SID=$4; PROP=$5; shift 5
 cd $WT || exit 2
 cp $PATCH /tmp/_seed_patch.diff
 git checkout -q -- python
+git checkout -q --detach $(git -C /repo rev-parse HEAD) || { echo "cannot move worktree to HEAD"; exit 2; }
 PYTHONPATH=$WT/python timeout 600 /venv/bin/python -W ignore $DEMO > /tmp/_seed_demo_clean.log 2>&1; RC_CLEAN=$?
 git apply /tmp/_seed_patch.diff || { echo "patch does not apply"; exit 2; }
 PYTHONPATH=$WT/python timeout 600 /venv/bin/python -W ignore $DEMO > /tmp/_seed_demo_patched.log 2>&1; RC_PATCHED=$?
